@@ -99,12 +99,17 @@ class _G:
         if self.p.get("domain_always_true") and self.chance(self.p["domain_always_true"]):
             # a declared domain that every value satisfies (keeps "values lie in their declared domains" true)
             node["domain"] = {"t": "pred", "p": "any"}
+            pool = [d for d in self.defs if not hashable or d["body"] == "first"]
+            if pool and self.chance(0.5):
+                # ... next to a default that has a body of its own (checking the domain must not need the default's value
+                # while the key is present, nor run its body during validation)
+                node["default"] = {"t": "node", "n": {"k": "ref", "name": self.pick(pool)["name"]}}
         elif self.p["domains"] and self.chance(self.p.get("domain_rate", 0.025)):
             d = self.draw(st.integers(0, 1 if self.p.get("picklable") else 2))
             if d == 0:
                 node["domain"] = {"t": "container", "v": self.draw(st.lists(st.sampled_from(U.HASHABLE_DISPATCH), min_size=1, max_size=5))}
             elif d == 1:
-                node["domain"] = {"t": "pred", "p": self.pick(["is_none", "truthy", "is_str", "not_none"])}
+                node["domain"] = {"t": "pred", "p": self.pick(["is_none", "truthy", "is_str", "not_none"] + (["lt1"] if self.p.get("faults") else []))}
             else:
                 node["domain"] = {"t": "step", "p": self.pick(["eq", "ne", "is_in"]),
                                   "arg": {"k": "opt", "key": self.pick(["B", "T", "L"])}}
